@@ -69,7 +69,7 @@ for _w in WEAK:
 TIERS = {
     "quick": dict(mc=[("genuine", "Session_genuine.cfg", 2), ("adv", "Session_adv.cfg", 6), ("cross", "Session_cross.cfg", 2), ("reflect", "Session_reflect.cfg", 2)],
                   sim=dict(sim_genuine=150, sim_adv=250, sim_cross=100, weak=50), cover_stride=dict(cover_genuine=1, cover_adv=3, edge_genuine=1, edge_reflect=60)),
-    "thorough": dict(mc=[("genuine", "Session_genuine.cfg", 2), ("adv", "Session_adv_deep.cfg", 10), ("cross", "Session_cross_deep.cfg", 4), ("reflect", "Session_reflect.cfg", 2)],
+    "thorough": dict(mc=[("genuine", "Session_genuine.cfg", 2), ("adv", "Session_adv_deep.cfg", 10), ("cross", "Session_cross_deep.cfg", 8), ("reflect", "Session_reflect.cfg", 2)],
                      sim=dict(sim_genuine=2000, sim_adv=4000, sim_cross=1500, weak=600), cover_stride=dict(cover_genuine=1, cover_adv=1, edge_genuine=1, edge_reflect=2)),
 }
 
@@ -79,7 +79,7 @@ def stage1(tier, stats):
     ex = ThreadPoolExecutor(max_workers=8)
 
     def mc(name, cfg, workers):
-        res = core.tlc("MC_Session", cfg, workers=workers, timeout=3000, label="mc-" + name)
+        res = core.tlc("MC_Session", cfg, workers=workers, timeout=6000, label="mc-" + name)
         core.tlc_ok_or_inconclusive(res, "MC Session/" + name)
         stats["mc"][name] = dict(states=res.distinct, transitions=res.generated, depth=res.depth, wall=round(res.wall, 1))
 
